@@ -315,9 +315,9 @@ class Bench:
             net.reset()
             self.emit("reset")
         elif k == "sockFault":
-            # not a model event: the socket handed over next raises OSError from setsockopt / getpeername (scenarios with
-            # this op are judged by the oracles only)
+            # the socket handed over next raises OSError from setsockopt / getpeername (one model event for both)
             net.sock_fault = op[1]
+            self.emit("sockFault")
         elif k == "setWrite":
             # the failure classes a transport write can raise (asyncio: OSError family; uvloop / after write_eof: RuntimeError)
             _wf[0] += 1
